@@ -172,6 +172,13 @@ theorem concatF_inv : InvPreserving concatF := by
   · cases hr; exact inv_str_false _
   · cases hr
 
+theorem addF_inv : InvPreserving addF := by
+  intro args r _ hr
+  unfold addF at hr
+  split at hr
+  · cases hr; exact inv_str_false _
+  · cases hr
+
 theorem repeatF_inv (n : Nat) : InvPreserving (repeatF n) := by
   intro args r _ hr
   unfold repeatF at hr
@@ -188,6 +195,8 @@ theorem sliceF_inv (a b : Nat) : InvPreserving (sliceF a b) := by
     cases hr
     have := inv_seq.mp (hargs (.seq xs) (by simp))
     exact inv_seq.mpr fun x hx => this x (List.mem_of_mem_drop (List.mem_of_mem_take hx))
+  · cases hr; exact inv_seq.mpr (by intro x hx; cases hx)
+  · cases hr; exact inv_seq.mpr (by intro x hx; cases hx)
   · cases hr
 
 theorem elemF_inv (k : Nat) : InvPreserving (elemF k) := by
@@ -217,6 +226,7 @@ theorem charsF_inv : InvPreserving charsF := by
     obtain ⟨c, _, rfl⟩ := hx
     exact inv_str_false _
   · rename_i xs; cases hr; exact hargs (.seq xs) (by simp)
+  · cases hr; exact inv_seq.mpr (by intro x hx; cases hx)
   · cases hr
 
 theorem escapeF_inv : InvPreserving (escapeF .html) := by
@@ -254,6 +264,8 @@ theorem reverseF_inv : InvPreserving reverseF := by
     cases hr
     have := inv_seq.mp (hargs (.seq xs) (by simp))
     exact inv_seq.mpr fun x hx => this x (List.mem_reverse.mp hx)
+  · cases hr; exact inv_undef
+  · cases hr; exact inv_none
   · cases hr
 
 theorem piecesF_inv {g : TStr → List TStr} (hg : SubPieces g) : InvPreserving (piecesF g) := by
@@ -269,12 +281,6 @@ theorem piecesF_inv {g : TStr → List TStr} (hg : SubPieces g) : InvPreserving 
     obtain ⟨p, hp, rfl⟩ := hx
     apply inv_str; intro hs; subst hs
     exact (clean_of_inv hv).mono (hg s p hp)
-  · cases hr
-    apply inv_seq.mpr
-    intro x hx
-    simp only [List.mem_map] at hx
-    obtain ⟨p, _, rfl⟩ := hx
-    exact inv_str_false _
   · cases hr
 
 theorem firstF_inv : InvPreserving firstF := by
